@@ -168,7 +168,11 @@ def _matrix_inverse_root_diagonal(
     if root <= 0:
         raise ValueError(f"Root {root} should be positive!")
 
-    return torch.diag((torch.diagonal(A) + epsilon).pow(torch.as_tensor(-1.0 / root)))
+    # NOTE: Negative diagonal entries (round-off) are shifted to zero before adding epsilon, as the
+    # eigendecomposition-based inverse root does for negative eigenvalues.
+    diagonal = torch.diagonal(A)
+    diagonal = diagonal - torch.minimum(torch.min(diagonal), torch.as_tensor(0.0))
+    return torch.diag((diagonal + epsilon).pow(torch.as_tensor(-1.0 / root)))
 
 
 def matrix_eigenvalue_decomposition(
